@@ -21,7 +21,7 @@ CNext ==
   \/ Op(Clear(cfg), other)
   \/ Op(MergeFrom(cfg, other), Clear(other))
   \/ Op(FillWithCurated(cfg, Curated), other)
-  \/ Op(FromJson(ToJson(cfg)), other)
+  \/ Op(CfgFromJson(CfgToJson(cfg)), other)
 
 \* state invariants (each quantifies over the possible next operation)
 DisabledMeansOffOrUnset == \A k \in Keys : Enabled(cfg, k) <=> Meaning(cfg, k) = "On"
@@ -31,7 +31,7 @@ UnknownKeysHarmless ==
   \A k \in Keys \ Known : \A v \in Vals :
      \A r \in Known : Enabled(FillWithCurated(Put(cfg, k, v), Curated), r) = Enabled(FillWithCurated(cfg, Curated), r)
 ClearKeepsKeysDropsValues == DOMAIN Clear(cfg) = DOMAIN cfg /\ \A k \in Keys : ~Enabled(Clear(cfg), k)
-JsonRoundTrip == FromJson(ToJson(cfg)) = cfg
+JsonRoundTrip == CfgFromJson(CfgToJson(cfg)) = cfg
 MergeOrderIrrelevantForDisjoint ==
   \* overlaying two user configurations that mention different rules commutes
   (\A k \in Keys : Meaning(cfg, k) = "None" \/ Meaning(other, k) = "None") =>
